@@ -247,7 +247,7 @@ def configs(dialect):
     return out
 
 
-PROPS_A = ("C15", "C01", "C03", "C07", "C10", "C12")
+PROPS_A = ("C15", "C01", "C03", "C07", "C10", "C12", "C13")
 
 
 def special_tasks(module, dialect):
